@@ -92,6 +92,12 @@ def run_dynamic(ctx, maxlen, bit_len, stds):
 
     vlib.parallel([mk(k, s) for s in stds for k in range(NKINDS)] + [mkmisc])
 
+    nsh = 8 if bit_len >= 4 else 2
+    for k in range(nsh if "misc" in bins else 0):
+        jobs.append(guarded("bitset references shard %d" % k,
+                            lambda k=k: ctx.run_harness(bins["misc"], ["--part", "bitref", "--len", str(bit_len), "--shard", str(k), str(nsh)], env=ENV, tag="misc")))
+    if "misc" in bins:
+        jobs.append(guarded("forward_sequence", lambda: ctx.run_harness(bins["misc"], ["--part", "fwdseq"], env=ENV, tag="misc")))
     for std in stds:
         for kind in range(NKINDS):
             if (kind, std) not in bins:
@@ -105,12 +111,6 @@ def run_dynamic(ctx, maxlen, bit_len, stds):
                     dl = max(10, int(ctx.time_left() - 25))
                     ctx.run_harness(binary, ["--group", name, "--len", str(L), "--deadline", str(dl)], env=ENV, tag=tag)
                 jobs.append(guarded("%s %s %s" % (KIND_NAMES[kind], name, std), run))
-    nsh = 8 if bit_len >= 4 else 2
-    for k in range(nsh if "misc" in bins else 0):
-        jobs.append(guarded("bitset references shard %d" % k,
-                            lambda k=k: ctx.run_harness(bins["misc"], ["--part", "bitref", "--len", str(bit_len), "--shard", str(k), str(nsh)], env=ENV, tag="misc")))
-    if "misc" in bins:
-        jobs.append(guarded("forward_sequence", lambda: ctx.run_harness(bins["misc"], ["--part", "fwdseq"], env=ENV, tag="misc")))
     # longest jobs (many operations, tracked payload) are spread by the pool; order does not affect coverage
     vlib.parallel(jobs, workers=max(4, vlib.NCPU - 2))
     for d in skipped:
@@ -152,11 +152,11 @@ def try_one(e, cxx, std):
 def judge_one(ctx, e, cxx, std, known, source):
     """compile one entry on its own and turn the outcome into a violation / note"""
     st, detail = try_one(e, cxx, std)
-    listed = e.id in known and std in known[e.id][0]
+    listed = gen_static.is_listed(known, e.id, cxx, std)
     args = ["static", e.id, std, cxx]
     if st == "ok":
         if listed:
-            ctx.note("capability: %s is listed as ill-formed under %s but compiles now and satisfies the rule" % (e.id, std))
+            ctx.note("capability: %s is listed as ill-formed under %s -std=%s but compiles now and satisfies the rule" % (e.id, cxx, std))
         ctx.stat("static_identities_checked", 1)
         ctx.stat("evaluations", 1)
         return
@@ -168,7 +168,7 @@ def judge_one(ctx, e, cxx, std, known, source):
         return
     if listed:
         ctx.stat("known_ill_formed_probes", 1)
-        ctx.note("capability gap (no executions, not a violation): %s is ill-formed under -std=%s: %s" % (e.id, std, known[e.id][1]))
+        ctx.note("capability gap (no executions, not a violation): %s is ill-formed (%s -std=%s): %s" % (e.id, cxx, std, known[e.id][1]))
         return
     ctx.violation(e.sig("ill-formed"), "%s [%s -std=%s]: the expression no longer compiles (it is not in the committed list of ill-formed instantiations): %s" % (e.id, cxx, std, detail),
                   harness="static", args=args)
@@ -181,14 +181,14 @@ def run_static(ctx, fronts):
         if not any(e.id == k for e in es):
             raise vlib.HarnessError("capability manifest names an unknown entry: " + k)
     counted = set()
-    for i in (3, 130, 401, 700):
+    for i in (3, 130, 401):
         ctx.sample("static identity: %s must be one of {%s}" % (es[i].observed, " | ".join(es[i].accept)))
     for cxx, std in fronts:
         if ctx.time_left() < 30:
             ctx.cap("deadline: static identities not checked with %s -std=%s" % (cxx, std))
             continue
-        probes = [e for e in es if e.id in known and std in known[e.id][0]]
-        rest = [e for e in es if not (e.id in known and std in known[e.id][0])]
+        probes = [e for e in es if gen_static.is_listed(known, e.id, cxx, std)]
+        rest = [e for e in es if not gen_static.is_listed(known, e.id, cxx, std)]
         groups = {}
         for e in rest:
             groups.setdefault(e.hdr, []).append(e)
